@@ -142,7 +142,8 @@ class SlotIter(IterBase):
             pos += 1
             if w is None:
                 continue
-            return some(strings.rust_lowercase(w) if self.lower else w), SlotIter(self.slots, pos, self.lower)
+            lw = w if not self.lower else (strings.ascii_lowercase(w) if self.lower == 'ascii' else strings.rust_lowercase(w))
+            return some(lw), SlotIter(self.slots, pos, self.lower)
         return NONE, SlotIter(self.slots, pos, self.lower)
 
     def merge_key(self):
@@ -173,6 +174,9 @@ class SlotPhrase:
 
     def to_lowercase(self, ex):
         return SlotPhrase(self.slots, True)
+
+    def to_ascii_lowercase(self, ex):
+        return SlotPhrase(self.slots, 'ascii')
 
     def split_whitespace(self, ex):
         return SlotIter(self.slots, 0, self.lower)
@@ -273,6 +277,52 @@ class SlotText:
 
     def to_lowercase(self, ex):
         return SlotText(tuple(tuple((c, strings.rust_lowercase(t)) for c, t in alts) for alts in self.slots), True)
+
+    def to_ascii_lowercase(self, ex):
+        return SlotText(tuple(tuple((c, strings.ascii_lowercase(t)) for c, t in alts) for alts in self.slots), True)
+
+    def _all_ws(self, i):
+        return all(all(strings.char_is_whitespace(ord(ch)) for ch in t) for _, t in self.slots[i])
+
+    def trim_ws(self, ex, start, end):
+        sl = list(self.slots)
+        if start and sl and self.kind(0) == 's':
+            if not self._all_ws(0):
+                raise Unsupported('trim of a SlotText whose first part is not pure whitespace')
+            sl = sl[1:]
+        if end and sl and not _wordlike(sl[-1][0][1]):
+            if not self._all_ws(len(self.slots) - 1):
+                raise Unsupported('trim of a SlotText whose last part is not pure whitespace')
+            sl = sl[:-1]
+        return SlotText(tuple(sl), self.lower)
+
+    def split_pat(self, ex, pat):
+        """str::split with a char / char-set / predicate pattern: every separator character ends a (possibly empty) piece"""
+        kind, p = pat
+        if kind == 'str':
+            raise Unsupported('split of a SlotText on a string pattern')
+        is_sep = (lambda ch: p(ch)) if kind == 'pred' else (lambda ch: ch in p)
+        if not any(self.kind(i) == 'w' for i in range(len(self.slots))):
+            raise Unsupported('split of a SlotText without a word part')
+        out = []
+        last = len(self.slots) - 1
+        for i, alts in enumerate(self.slots):
+            if self.kind(i) == 'w':
+                for _, t in alts:
+                    if any(is_sep(ch) for ch in t):
+                        raise Unsupported('split pattern matches inside a word part')
+                out.append(alts)
+                continue
+            for _, t in alts:
+                if not all(is_sep(ch) for ch in t):
+                    raise Unsupported('split of a SlotText: a separator part is not made of separator characters only')
+            # n separator characters give n-1 empty pieces between two words, n at either end of the text
+            edge = i == 0 or i == last
+            nmax = max(len(t) for _, t in alts)
+            for j in range(nmax if edge else nmax - 1):
+                need = j + 1 if edge else j + 2
+                out.append(tuple((c, '' if len(t) >= need else None) for c, t in alts))
+        return SlotIter(tuple(out), 0, False)
 
     def split_whitespace(self, ex):
         words = []
